@@ -349,6 +349,14 @@ func (ff *FuncFacts) factsAt(B *ssa.BasicBlock) *dbm {
 		case token.EQL:
 			m.add(a.atom, b.atom, b.c-a.c)
 			m.add(b.atom, a.atom, a.c-b.c)
+		case token.NEQ:
+			// len(x) != 0  =>  len(x) >= 1 (lengths are non-negative)
+			if b.atom == "" && strings.HasPrefix(a.atom, "len(") && b.c-a.c == 0 {
+				m.add("", a.atom, -1)
+			}
+			if a.atom == "" && strings.HasPrefix(b.atom, "len(") && a.c-b.c == 0 {
+				m.add("", b.atom, -1)
+			}
 		}
 	}
 	for _, cf := range ff.DomConds(B) {
